@@ -439,8 +439,13 @@ fn gen_pre(rng: &mut Rng, avail: usize) -> Vec<Node> {
         if rng.chance(1, 7) {
             continue; // empty line
         }
-        if rng.chance(1, 10) {
-            cur.push_str(&" ".repeat(rng.range(1, 5))); // spaces-only or leading
+        if rng.chance(1, 8) {
+            // white space only (spaces, tabs) or leading indentation
+            match rng.below(4) {
+                0 => cur.push('\t'),
+                1 => cur.push_str(" \t"),
+                _ => cur.push_str(&" ".repeat(rng.range(1, 5))),
+            }
             if rng.chance(1, 2) {
                 continue;
             }
@@ -484,7 +489,22 @@ fn gen_pre(rng: &mut Rng, avail: usize) -> Vec<Node> {
             p.boundary = Some((target.saturating_sub(width)).clamp(4, 12));
             let w = tok.unique(rng, &p);
             width += sw_chars(&w);
-            if rng.chance(1, 8) {
+            if rng.chance(1, 12) && w.chars().count() >= 4 {
+                // the word is split between plain text and an inline element
+                let k = rng.range(1, w.chars().count() - 1);
+                let head: String = w.chars().take(k).collect();
+                let tail: String = w.chars().skip(k).collect();
+                let tag = *rng.pick(&["b", "em", "strong", "span"]);
+                if rng.chance(1, 2) {
+                    cur.push_str(&head);
+                    flush(&mut cur, &mut nodes);
+                    nodes.push(El::with(tag, vec![Node::Raw(tail)]).node());
+                } else {
+                    flush(&mut cur, &mut nodes);
+                    nodes.push(El::with(tag, vec![Node::Raw(head)]).node());
+                    cur.push_str(&tail);
+                }
+            } else if rng.chance(1, 8) {
                 flush(&mut cur, &mut nodes);
                 let tag = *rng.pick(&["em", "strong", "code", "span"]);
                 nodes.push(El::with(tag, vec![Node::Raw(w)]).node());
